@@ -272,8 +272,20 @@ class View:
 
     # ---- loops
     def loops_around(self, node):
-        """enclosing loop statements, outermost first"""
-        return [a for a in self.fn.ancestors(node) if a.get("k") in LOOPS][::-1]
+        """enclosing loop statements, outermost first (a statement in the init part of a for is not
+        inside that loop)"""
+        out = []
+        for a in self.fn.ancestors(node):
+            if a.get("k") not in LOOPS:
+                continue
+            init = a.get("init")
+            if init is not None and any(x is node for x in walk(init)):
+                continue
+            rs = a.get("rangeStmt")
+            if rs is not None and any(x is node for x in walk(rs)):
+                continue
+            out.append(a)
+        return out[::-1]
 
     def loop_blocks(self, L):
         """(terminator block, header block set, body entry block, exit block) of a loop statement"""
@@ -649,9 +661,21 @@ def _lvalue_id(n):
     return None
 
 
+def _counter_type(t):
+    """integers, and pointers into contiguous storage (a pointer walked alongside a loop is a position)"""
+    if is_int_type(t):
+        return True
+    t = (t or "").rstrip()
+    return t.endswith("*") and not t.endswith("**") and "(" not in t
+
+
 def update_sites(fn):
-    """incremental updates of integer lvalues: [(node, lvalue node, sign, step expr | int)]"""
+    """incremental updates of integer / pointer lvalues: [(node, lvalue node, sign, step expr | int)]"""
+    cached = getattr(fn, "_step_sites", None)
+    if cached is not None:
+        return cached
     out = []
+    is_int_type = _counter_type
     for n in fn.walk():
         k = n.get("k")
         if k == "UnaryOperator" and n.get("op") in ("++", "--"):
@@ -671,6 +695,7 @@ def update_sites(fn):
                     out.append((n, lv, 1 if r["op"] == "+" else -1, b))
                 elif r["op"] == "+" and _lvalue_id(b) == li:
                     out.append((n, lv, 1, a))
+    fn._step_sites = out
     return out
 
 
@@ -731,6 +756,8 @@ def _consumer(view, n, env, var_is):
         if k == "UnaryOperator" and p.get("op") in ("-", "+"):
             cur = p
             continue
+        if k == "UnaryOperator" and p.get("op") == "*":
+            return "deref"
         if k == "BinaryOperator" and p.get("op") in ("+", "-", "*", "/", "%"):
             cur = p
             continue
